@@ -122,6 +122,51 @@ Theorem c17_skip_height_examples :
   = map Some [0; 0; 0; 1; 8; 1; 992; 2 ^ 63 - 7]%N.
 Proof. exact skip_height_examples. Qed.
 
+(* get_ancestor returns the header reached by number(self) - number parent steps,
+   for every store in which views are faithful (number, parent, skip pointer =
+   ancestor at the skip height), whatever store_first / fast-scanner answers
+   are taken (the fast scanner may only return the true ancestor); it never
+   runs out of rounds and never overflows below height 2^63 *)
+Theorem c17_get_ancestor_eq_walk : forall par num getv fast tip,
+  (forall x, (0 < num x)%N -> num (par x) = (num x - 1)%N) ->
+  (forall x sf c, getv x sf = Some c -> h_hash c = x /\ faithful par num c) ->
+  (forall n x t, fast n (num x, x) = Some t -> (n <= num x)%N ->
+                 h_hash t = walkh par (N.to_nat (num x - n)) x) ->
+  forall self number,
+    faithful par num self -> (num (h_hash self) < 2 ^ 63)%N ->
+    match get_ancestor getv fast tip self number with
+    | RSome t => (number <= num (h_hash self))%N /\
+                 h_hash t = walkh par (N.to_nat (num (h_hash self) - number)) (h_hash self)
+    | RNone => True
+    | RPanic | RFuel => False
+    end.
+Proof. exact get_ancestor_eq_walk. Qed.
+
+Theorem c17_get_ancestor_terminates : forall getv fast tip number fuel current nw,
+  (nw < 2 ^ 63)%N -> (N.to_nat nw < fuel)%nat ->
+  ga_loop getv fast tip fuel number current nw <> RFuel /\
+  ga_loop getv fast tip fuel number current nw <> RPanic.
+Proof. exact get_ancestor_terminates. Qed.
+
+Theorem c17_get_ancestor_example :
+  (forall x, (0 < lin_num x)%N -> lin_num (lin_par x) = (lin_num x - 1)%N) /\
+  (forall x sf c, lin_getv x sf = Some c -> h_hash c = x /\ faithful lin_par lin_num c) /\
+  res_hash (get_ancestor lin_getv lin_fast 0 (mkHdr 1000 1000 999 (Some 992%N)) 37) = Some 37%N.
+Proof. exact get_ancestor_example. Qed.
+
+(* locator: asked along the start's chain A (height => hash), where get_ancestor
+   from any header of that chain gives the header at the requested height, every
+   entry get_locator lists is A at the listed height *)
+Theorem c17_locator_eq_walk : forall A ga genesis n,
+  (forall m k, (k <= m)%N -> (m <= n)%N -> ga (A m) k = Some (A k)) ->
+  get_locator ga genesis n (A n) = get_locator (fun _ k => Some (A k)) genesis n (A n).
+Proof. exact locator_eq_walk. Qed.
+
+Theorem c17_locator_example :
+  get_locator (fun _ k => Some k) 0 30 30 = Some [30; 29; 28; 27; 26; 25; 24; 23; 22; 21; 19; 15; 0]%N
+  /\ option_map (@length N) (get_locator (fun _ k => Some k) 0 40000 40000) = Some 26%nat.
+Proof. exact locator_example. Qed.
+
 Redirect "out/C17.c17_orphan_refines" Print Assumptions c17_orphan_refines.
 Redirect "out/C17.c17_orphan_leaders_exact" Print Assumptions c17_orphan_leaders_exact.
 Redirect "out/C17.c17_orphan_example" Print Assumptions c17_orphan_example.
@@ -136,3 +181,8 @@ Redirect "out/C17.c17_headermap_example" Print Assumptions c17_headermap_example
 Redirect "out/C17.c17_skip_height_spec" Print Assumptions c17_skip_height_spec.
 Redirect "out/C17.c17_skip_height_lt" Print Assumptions c17_skip_height_lt.
 Redirect "out/C17.c17_skip_height_examples" Print Assumptions c17_skip_height_examples.
+Redirect "out/C17.c17_get_ancestor_eq_walk" Print Assumptions c17_get_ancestor_eq_walk.
+Redirect "out/C17.c17_get_ancestor_terminates" Print Assumptions c17_get_ancestor_terminates.
+Redirect "out/C17.c17_get_ancestor_example" Print Assumptions c17_get_ancestor_example.
+Redirect "out/C17.c17_locator_eq_walk" Print Assumptions c17_locator_eq_walk.
+Redirect "out/C17.c17_locator_example" Print Assumptions c17_locator_example.
